@@ -26,6 +26,8 @@ SPEC = {
     'assumptions': ['keys are hashable but not necessarily orderable'],
     'exhaustive': True,
 }
+SPEC['explanation'] += ' T15.width: the bucket width is derived from the true quotient 1 / threshold (no float floor division).'
+SPEC['decided'] += ['bucket width by true division']
 MANIFEST = {
     'technique': 'dominance / contradiction checks on tests, who-may-write analysis, must-pass-through on all CFG paths, dependence check on the compaction predicate',
     'text': ('Decides structural necessary conditions of C20 on all paths (omitted n, mapping arguments, keyword counts, '
